@@ -57,7 +57,11 @@ Definition in_cint (z : Z) : bool := ((- 2 ^ 31 <=? z) && (z <? 2 ^ 31))%Z.
 Fixpoint lookup (i : Z) (fs : list (Z * pv)) : option pv :=
   match fs with [] => None | (k, v) :: r => if (k =? i)%Z then Some v else lookup i r end.
 
-Definition ids13 : list Z := [1; 2; 3; 4; 5; 6; 7; 8; 9; 10; 11; 12; 13]%Z.     (* range(1, 14) *)
+Definition ids13 : list Z := [1; 2; 3; 4; 5; 6; 7; 8; 9; 10; 11; 12; 13]%Z.     (* range(1, 14): the pinned code *)
+Definition ids14 : list Z := [1; 2; 3; 4; 5; 6; 7; 8; 9; 10; 11; 12; 13; 14]%Z. (* range(1, 15): the REPAIRED field loop *)
+(* The field-id list the loop runs over is a parameter `ids` of the writer model: the pinned code is the
+   instance ids13; ids14 is the repaired serialiser (every id the Parquet IDL declares), a proved target for a
+   future Cython rebuild. *)
 
 Definition int_nib (i32 : bool) (i32l : option (list Z)) (i : Z) : N :=
   match i32l with
@@ -127,21 +131,21 @@ Definition w_field (w_dict : pv -> option (list op)) (i32 : bool) (i32l : option
   | PDict _ _ _ => option_map (cons (hdr delt 12)) (w_dict v)
   end.
 
-Fixpoint w_thrift (d : nat) (i32 : bool) (i32l : option (list Z)) (fs : list (Z * pv)) {struct d}
+Fixpoint w_thrift (ids : list Z) (d : nat) (i32 : bool) (i32l : option (list Z)) (fs : list (Z * pv)) {struct d}
   : option (list op) :=
   match d with
   | O => None
   | S d' =>
-    let w_dict := fun v : pv => match v with PDict a b c => w_thrift d' a b c | _ => None end in
-    w_fields (w_field w_dict i32 i32l) ids13 0%Z fs
+    let w_dict := fun v : pv => match v with PDict a b c => w_thrift ids d' a b c | _ => None end in
+    w_fields (w_field w_dict i32 i32l) ids 0%Z fs
   end.
 
 Definition w_depth : nat := 64.
-Definition w_top (v : pv) : option (list op) :=
-  match v with PDict a b c => w_thrift w_depth a b c | _ => None end.
+Definition w_top (ids : list Z) (v : pv) : option (list op) :=
+  match v with PDict a b c => w_thrift ids w_depth a b c | _ => None end.
 
 (* the bytes a large enough buffer would receive *)
-Definition ser (v : pv) : option bytes := option_map flat (w_top v).
+Definition ser (ids : list Z) (v : pv) : option bytes := option_map flat (w_top ids v).
 
 (* ---- the fixed buffer ---------------------------------------------------------------------- *)
 Record st := mkSt { loc : N; out : bytes (* reversed *) }.
@@ -158,13 +162,39 @@ Fixpoint run_ops (cap : N) (ops : list op) (s : st) : option st :=       (* None
 Inductive outcome := OBytes (b : bytes) | OExc | OOob.
 
 (* ThriftObject.to_bytes with a buffer of `cap` bytes: write_thrift(self.data, o); return o.so_far() *)
-Definition to_bytes (cap : N) (v : pv) : outcome :=
-  match w_top v with
+Definition to_bytes (ids : list Z) (cap : N) (v : pv) : outcome :=
+  match w_top ids v with
   | None => OExc
   | Some ops => match run_ops cap ops (mkSt 0 []) with
                 | None => OOob
                 | Some s => OBytes (rev_append (out s) [])
                 end
+  end.
+
+(* ---- the REPAIRED buffer: bounds-checked, grows when a write does not fit ----------------------
+   Every write first makes room (`ensure`: double the capacity until loc + n <= cap), so nothing is
+   ever dropped or copied past the end.  `gcap` is the current capacity; the initial one may be anything. *)
+Record gst := mkG { gcap : N; gloc : N; gout : bytes (* reversed *) }.
+
+Fixpoint grow (fuel : nat) (cap need : N) : N :=        (* smallest doubling of max(cap,1) that is >= need *)
+  match fuel with
+  | O => need
+  | S f => if need <=? cap then cap else grow f (2 * N.max cap 1) need
+  end.
+Definition ensure (s : gst) (n : N) : gst :=
+  mkG (grow 64 (gcap s) (gloc s + n)) (gloc s) (gout s).
+
+Fixpoint run_grow (ops : list op) (s : gst) : gst :=
+  match ops with
+  | [] => s
+  | WB b :: r => let s' := ensure s 1 in run_grow r (mkG (gcap s') (gloc s' + 1) (b :: gout s'))
+  | Raw l :: r => let s' := ensure s (len l) in run_grow r (mkG (gcap s') (gloc s' + len l) (rev_append l (gout s')))
+  end.
+
+Definition to_bytes_grow (ids : list Z) (cap0 : N) (v : pv) : outcome :=
+  match w_top ids v with
+  | None => OExc
+  | Some ops => OBytes (rev_append (gout (run_grow ops (mkG cap0 0 []))) [])
   end.
 
 (* ---- reader -------------------------------------------------------------------------------- *)
